@@ -48,7 +48,7 @@ CHECKS = {
                      'double/increment_strong_lucas_index, find_strong_lucas_element, strong_lucas, baillie_psw, find_pollard_rho_factor, find_prime_factor, jacobi_symbol: result ranges, '
                      'memory safety (bits[64]), structure and every callee precondition.',
                 note=TRUST + 'mul_mod, pow_mod, gcd, is_perfect_square, multiplicity, jacobi: nonlinear arithmetic / number theory enters as instances of lemmas that Lean 4 + Mathlib check in the same run (DESIGN 10.1). '
-                             'ASSUMED, not proved: Baillie-PSW exact on 64 bits; Lucas sequence values; Pollard rho returns divisors; D.mag < 2^31. '
+                             'ASSUMED, not proved: Baillie-PSW exact on 64 bits; Lucas sequence values; D.mag < 2^31 (find_pollard_rho_factor is proved to return a divisor of n). '
                              'Type-level mag<a>()*mag<b>() == mag<a*b>() is N/A.', ref='5 (C12), 10.1',
                 tech='CBMC function + loop contracts (goto-instrument --dfcc, and ll2c-generated VCs); nonlinear arithmetic as uninterpreted functions + instances of Lean-checked lemmas'),
     'C14': dict(text='Quantity * Quantity, / (unblock_int_div), int_pow<2>, int_pow<3>, same-unit quotient collapsing to a raw number equal the raw operator on the stored values '
